@@ -159,9 +159,6 @@ mutual
     | _ => none
 end
 
-/-- the quirks of the tree under verification (kept in step with /repo by Facts) -/
-def currentQuirks : Quirks := {}
-
 def compileRequest : Sexp → Option String
   | .list [.atom "k4", body] => do
       let ss ← parseStmts body
